@@ -12,8 +12,8 @@ RULE = ("seeded random Series / DataFrames (<= 14 rows, 1-3 value columns of flo
         "arbitrary index (default, shuffled integers, strings, duplicated labels, a 2-level MultiIndex whose levels can serve as keys) x keys given as column "
         "names, arrays / Series, index level names or numbers, a callable applied to the index labels, and mixtures x column selection (none, one column by [] or by attribute, a list) x every facade method "
         "(sum mean min max count size std var first last median, agg by name, cumsum cummin cummax cumcount, rolling sum / mean / min / max, nth / head / tail "
-        "with the core's defaults, ema, iteration, groups, ngroups); three oracles: (1) the core engine GroupBy(resolved keys).<method>(selected value "
-        "columns) - identical labels, columns, numbers; (2) pandas obj.groupby(...)[selection].<method>() for the null-skipping operations pandas offers - "
+        "with the core's defaults, ema, iteration, groups, ngroups); in a quarter of the cases with a boolean mask passed to the facade method; three oracles: (1) the core engine GroupBy(resolved keys).<method>(selected value "
+        "columns, same mask) - identical labels, columns, numbers; (2) pandas obj.groupby(...)[selection].<method>() for the null-skipping operations pandas offers - "
         "same labels and numbers (cumulative / rolling compared at rows holding a non-null value); (3) structural: key columns are not among the result "
         "columns, a selection limits the result to exactly those columns, cumcount == 0,1,2.. within each group in row order whatever the values, iteration "
         "yields every label once with exactly the group's rows (compared through a hidden row-id column); non-trivial = >= 2 groups, a non-default index "
@@ -27,6 +27,7 @@ CUM = ["cumsum", "cummin", "cummax", "cumcount"]
 ROLL = ["rolling_sum", "rolling_mean", "rolling_min", "rolling_max"]
 OTHER = ["agg:sum", "agg:max", "iter", "groups", "ngroups", "ema", "head", "tail", "nth", "apply:nansum", "aggf:nanmax"]
 METHODS = AGG + CUM + ROLL + OTHER
+MASKABLE = set(AGG) | set(ROLL) | {"agg:sum", "agg:max", "apply:nansum", "aggf:nanmax"}
 INDEX_KINDS = ["default", "shuffled_int", "str", "dup", "multi"]
 KEY_SPECS = ["col", "col2", "array", "series", "level_name", "level_num", "col+array", "col+level", "index_name", "callable"]
 
@@ -80,7 +81,8 @@ def gen_cases(tier, rng):
         lvl0 = [rng.randrange(rng.randint(1, 3)) for _ in range(n)]
         selection = rng.choice([None, None, "one", "list", "attr"]) if kind == "frame" else None
         yield dict(n=n, kind=kind, index_kind=index_kind, key_spec=key_spec, cols=cols, kclass=kclass, k1=k1, k2=k2, lvl0=lvl0, selection=selection,
-                   method=rng.choice(METHODS), perm=rng.sample(range(n), n), window=rng.choice([1, 2, 3]))
+                   method=rng.choice(METHODS), perm=rng.sample(range(n), n), window=rng.choice([1, 2, 3]),
+                   fmask=[rng.random() < 0.7 for _ in range(n)] if rng.random() < 0.25 else None)
 
 
 def cv(x):
@@ -260,23 +262,29 @@ def evaluate(case, drv):
             return frame[sel_cols[0]]
         return frame[final_cols]
 
+    fmask = None if case.get("fmask") is None else np.array(case["fmask"], dtype=bool)
+    if fmask is not None and method not in MASKABLE:
+        fmask = None
+    res["tags"].append("fmask" if fmask is not None else "nofmask")
+
     def call(g, m, engine):
         w = case["window"]
+        mk = {} if (fmask is None or engine == "pandas") else {"mask": fmask}
         if m in AGG:
-            return getattr(g, m)()
+            return getattr(g, m)(**mk)
         if m.startswith("agg:"):
-            return g.agg(m[4:])
+            return g.agg(m[4:], **mk)
         if m in CUM:
             return getattr(g, m)()
         if m.startswith("rolling_"):
             r = g.rolling(w, min_periods=1)
-            return getattr(r, m[8:])()
+            return getattr(r, m[8:])(**mk)
         if m == "ema":
             return g.ema(alpha=0.5)
         if m == "apply:nansum":
-            return g.apply(np.nansum)
+            return g.apply(np.nansum, **mk)
         if m == "aggf:nanmax":
-            return g.agg(np.nanmax)
+            return g.agg(np.nanmax, **mk)
         if m in ("head", "tail"):
             return getattr(g, m)(2)
         if m == "nth":
@@ -287,22 +295,25 @@ def evaluate(case, drv):
         gb = GroupBy([np.asarray(r) for r in resolved] if len(resolved) > 1 else np.asarray(resolved[0]))
         vals = core_values()
         w = case["window"]
+        cm = {} if fmask is None else {"mask": fmask}
         if m == "size":
-            return gb.size()
+            return gb.size(**cm)
         if m == "cumcount":
             return gb.cumcount()
-        if m in AGG or m in ("cumsum", "cummin", "cummax"):
+        if m in AGG:
+            return getattr(gb, m)(vals, **cm)
+        if m in ("cumsum", "cummin", "cummax"):
             return getattr(gb, m)(vals)
         if m.startswith("agg:"):
-            return getattr(gb, m[4:])(vals)
+            return getattr(gb, m[4:])(vals, **cm)
         if m.startswith("rolling_"):
-            return getattr(gb, m)(vals, window=w, min_periods=1)
+            return getattr(gb, m)(vals, window=w, min_periods=1, **cm)
         if m == "ema":
             return gb.ema(vals, alpha=0.5)
         if m == "apply:nansum":
-            return gb.apply(vals, np.nansum)
+            return gb.apply(vals, np.nansum, **cm)
         if m == "aggf:nanmax":
-            return gb.apply(vals, np.nanmax)
+            return gb.apply(vals, np.nanmax, **cm)
         if m in ("head", "tail"):
             return getattr(gb, m)(vals, 2, keep_input_index=True)
         if m == "nth":
@@ -408,7 +419,8 @@ def evaluate(case, drv):
         if gi != ci or len(gcells) != len(ccells) or any(not all(same(a, b) for a, b in zip(x, y)) or len(x) != len(y) for x, y in zip(gcells, ccells)):
             return bad(f"core engine: index {ci[:6]} columns {cc} cells {ccells}", f"facade: index {gi[:6]} columns {gc} cells {gcells}", note="facade != core engine")
     # ---------------- (2) pandas ----------------
-    if (method in AGG and method != "median") or method.startswith("agg:") or method in CUM or method.startswith("rolling_") or method in ("head", "tail", "nth"):
+    if fmask is None and ((method in AGG and method != "median") or method.startswith("agg:") or method in CUM or method.startswith("rolling_")
+                          or method in ("head", "tail", "nth")):
         try:
             pg = pandas_gb()
             if method.startswith("rolling_"):
